@@ -63,12 +63,17 @@ where
         let sbj_error = subject.clone();
         let sbj_complete = subject.clone();
 
-        let mut subscription = subscription.write().unwrap();
-        if subscription.is_some() {
-          return;
+        // reserve the slot, then subscribe WITHOUT holding the lock: a source
+        // that emits synchronously may make the last subscriber leave at once,
+        // and that path needs the lock too
+        {
+          let mut slot = subscription.write().unwrap();
+          if slot.is_some() {
+            return;
+          }
+          *slot = Some(Subscription::new(|| {}, || true));
         }
-
-        *subscription = Some(source.subscribe(
+        let connection = source.subscribe(
           move |x| {
             sbj_next.next(x);
           },
@@ -78,7 +83,15 @@ where
           move || {
             sbj_complete.complete();
           },
-        ));
+        );
+        let mut slot = subscription.write().unwrap();
+        if slot.is_some() {
+          *slot = Some(connection);
+        } else {
+          // disconnected while connecting
+          drop(slot);
+          connection.unsubscribe();
+        }
       }
     });
   }
